@@ -50,8 +50,19 @@ def run_retry_direct(case):
             maxd = rng.choice([0, 1, 3, 60, 300, 600])
             rate = rng.choice([1, 1.5, 2, 3, 4])
             jitter = rng.choice(["NONE", "FULL", "HALF"])
-            filt = rng.choice([None, "msg", "re", "types", "both", "empty"])
+            filt = rng.choice([None, "msg", "re", "types", "both", "empty", "mixed", "mixed"])
             kw = {}
+            mixed = None
+            if filt == "mixed":
+                # 1-3 filters: plain strings that contain regex metacharacters (substring semantics), and compiled patterns whose
+                # flags, anchors and alternations matter
+                pool = ["boom", "b.om", "a|b", "(x", "Rate", "[", "^boom", "$",
+                        re.compile("throttl", re.I), re.compile(r"^rate.exceeded$", re.I | re.M), re.compile(r"a.b", re.S),
+                        re.compile(r"bo{2}m"), re.compile(r"  b o o m  ", re.X), re.compile(r"x|boom$"), re.compile(r"(?i)ZZZ")]
+                mixed = [rng.choice(pool) for _ in range(rng.randrange(1, 4))]
+                kw["retryable_errors"] = list(mixed)
+                if rng.random() < 0.3:
+                    kw["retryable_error_types"] = [E1]
             if filt in ("msg", "both"):
                 kw["retryable_errors"] = ["boom"]
             if filt == "re":
@@ -62,16 +73,31 @@ def run_retry_direct(case):
                 kw["retryable_errors"] = []
             cfg = RetryStrategyConfig(max_attempts=maxa, initial_delay=Duration(initial), max_delay=Duration(maxd), backoff_rate=rate,
                                       jitter_strategy=JitterStrategy(jitter), **kw)
-            strat = create_retry_strategy(cfg)
-            for err in (E1("boom"), E2("other"), E3("boom"), E3("zzz")):
-                msg_ok = {"msg": "boom" in str(err), "both": "boom" in str(err), "re": bool(re.search(r"b.om$", str(err))),
-                          None: True, "types": False, "empty": False}[filt]
-                type_ok = isinstance(err, E1) if filt in ("types", "both") else False
+            try:
+                strat = create_retry_strategy(cfg)
+            except Exception as e:  # noqa: BLE001
+                viol.append(V("C12", "C12/strategy-function/raised/%s" % type(e).__name__, "create_retry_strategy raised %r for filters %r" % (e, kw.get("retryable_errors"))))
+                continue
+            errs = [E1("boom"), E2("other"), E3("boom"), E3("zzz")]
+            if mixed is not None:
+                errs += [E3(m) for m in rng.sample(["ThrottlingException: Rate exceeded", "first line\nrate exceeded\nlast", "a\nb", "a|b", "b.om", "(x)",
+                                                     "BOOM", "x", "", "[", "RATE", "boom "], 5)]
+            for err in errs:
+                if mixed is not None:
+                    msg_ok = any((pt.search(str(err)) is not None) if isinstance(pt, re.Pattern) else (pt in str(err)) for pt in mixed)
+                else:
+                    msg_ok = {"msg": "boom" in str(err), "both": "boom" in str(err), "re": bool(re.search(r"b.om$", str(err))),
+                              None: True, "types": False, "empty": False}[filt]
+                type_ok = isinstance(err, E1) if (filt in ("types", "both") or "retryable_error_types" in kw) else False
                 matches = msg_ok or type_ok
                 for attempts in range(1, maxa + 3):
                     for r in (0.0, 1.0 - 2**-53, rng.random()):
                         C.random.random = lambda r=r: r
-                        d = strat(err, attempts)
+                        try:
+                            d = strat(err, attempts)
+                        except Exception as e:  # noqa: BLE001
+                            viol.append(V("C12", "C12/strategy-function/raised/%s" % type(e).__name__, "strategy raised %r for err=%r filters %r" % (e, err, kw.get("retryable_errors"))))
+                            break
                         n_eval += 1
                         want_retry = attempts < maxa and matches
                         classes.add("%s|%s|%s|%s" % (jitter, filt, want_retry, attempts >= maxa))
